@@ -9,7 +9,7 @@ disagreement.
 import hashlib
 import struct
 
-from xvgen.schema import MODULE, SCHEMA, type_id
+from xvgen.schema import ENUM_MIXIN, MODULE, SCHEMA, type_id
 from xvgen.shadow import fval, is_float, is_ref
 
 OBJECT, INT, FLOAT, STR, PATH, NAME, NONE, LIST, TASK, DICT, ENUM, CYCLE, INIT = (bytes([i]) for i in range(13))
@@ -89,6 +89,14 @@ class RefEncoder:
             out.append(struct.pack("!d", len(vals)))
             for x in vals:
                 self.update(out, x, path)
+        elif isinstance(v, dict) and "$e" in v and v["$e"][0] in ENUM_MIXIN:
+            kind, values = ENUM_MIXIN[v["$e"][0]]
+            if kind == "int":
+                out.append(INT)
+                out.append(struct.pack("!q", values[v["$e"][1]]))
+            else:
+                out.append(STR)
+                out.append(values[v["$e"][1]].encode("utf-8"))
         elif isinstance(v, dict) and "$e" in v:
             out.append(ENUM)
             out.append(f"{MODULE}.{v['$e'][0]}:{v['$e'][1]}".encode("utf-8"))
